@@ -47,8 +47,11 @@ def specPeak : Kind → Bool
   | .timeDomain => true
   | _ => false
 
-/-- the arrow of a voltage/current label is drawn reversed iff exactly one of "annotation
-requested in reverse" and "element drawn in reverse" holds -/
+/-- the *drawing rule* for the arrow flag of a voltage/current label symbol: reversed iff exactly one of
+"annotation requested in reverse" and "element drawn in reverse" holds.  This is a statement about two flags, not
+about what the drawing means: that the number written next to the arrow is the quantity *along the arrow actually
+drawn* is judged geometrically by the oracle (`check_arrows` in c14.py) against the node potentials of the exact
+solution — the flag rule alone was satisfied while reversed passive elements carried the wrong number. -/
 def specArrowReversed (reverse elementReversed : Bool) : Bool := xor reverse elementReversed
 
 end CC.Annot
